@@ -6,7 +6,7 @@
 set -u
 WT=$1; OUT=$2; N=$3; PROP=$4; NAME=$5; shift 5; TESTS="$@"
 D=$OUT/$N
-B=$WT/_b
+B=$WT/${SEED_BUILD:-_b}
 log() { echo "[seedtest $NAME] $*"; }
 cd $WT && git checkout -q -- . && git apply $D/patch.diff || { log "patch does not apply in worktree"; exit 1; }
 cmake --build $B -j8 --target relic_s $TESTS >/dev/null 2>&1 || { log "build failed with patch"; git checkout -q -- .; exit 1; }
